@@ -71,19 +71,17 @@ theorem decVal_natDigits (n : Nat) : decVal 0 (natDigits n) = n := by
       simp only [decVal, List.foldl_append, List.foldl_cons, List.foldl_nil] at this ⊢
       rw [this]; omega
 
-theorem isSpaceC_dig {c : Nat} (h : IsDig c) : isSpaceC c = false := by
-  unfold IsDig at h; unfold isSpaceC
+theorem isIntSpaceC_dig {c : Nat} (h : IsDig c) : isIntSpaceC c = false := by
+  unfold IsDig at h; unfold isIntSpaceC
   simp; omega
 
-theorem strip_no_space (t : Txt) (h : ∀ c ∈ t, isSpaceC c = false) : strip t = t := by
-  have h1 : lstrip t = t := by
-    unfold lstrip
+theorem stripWith_none (p : Nat → Bool) (t : Txt) (h : ∀ c ∈ t, p c = false) : stripWith p t = t := by
+  have h1 : t.dropWhile p = t := by
     cases t with
     | nil => rfl
     | cons c cs => simp [h c (by simp)]
-  unfold strip
+  unfold stripWith
   rw [h1]
-  unfold rstrip
   cases hr : t.reverse with
   | nil =>
     have : t = [] := by simpa using hr
@@ -107,7 +105,7 @@ theorem signed_dig (body : Txt → Option Nat) (c : Nat) (cs : Txt) (h : IsDig c
 /-- **`int(str(n)) = n`** for every natural number -/
 theorem pyInt10_natDigits (n : Nat) : pyInt10 (natDigits n) = some (n : Int) := by
   unfold pyInt10
-  rw [strip_no_space _ (fun c hc => isSpaceC_dig (natDigits_dig n c hc))]
+  rw [stripWith_none _ _ (fun c hc => isIntSpaceC_dig (natDigits_dig n c hc))]
   cases hd : natDigits n with
   | nil => exact absurd hd (natDigits_ne_nil n)
   | cons c cs =>
